@@ -79,7 +79,7 @@ def run(chk):
             if op[0] == "setn" and rec["code"] == 0:
                 chk.count("fresh_comparisons")
                 fresh = M.new_model(case, int(ns))
-                impl.quiet(fresh.fit, np.array(case["datasets"][1]), seed=case["history"][0][2], quiet=True)
+                impl.quiet(fresh.fit, np.array(case["datasets"][1]), seed=case["history"][0][2], quiet=True, **M.fit_kws(case))
                 fo = M.observe(fresh, probe)
                 if fo.get("selected") != after["selected"] or fo.get("all") != after["all"] or \
                         not np.array_equal(fo.get("predict"), after["predict"]) or fo.get("score") != after["score"]:
